@@ -491,6 +491,31 @@ Proof.
   cbn [t_out t_changed t_err ok_res] in *. destruct ch; [reflexivity|]. exfalso; apply Hne. eapply rc_unchanged; [exact E|lia].
 Qed.
 
+Lemma udu_unchanged tbl fuel : forall s o, udu_loop tbl fuel s = (o, false) -> (length s < fuel)%nat -> o = s.
+Proof.
+  induction fuel as [|f IH]; intros s o H L; [lia|].
+  cbn [udu_loop] in H. destruct s as [|c r]; [inversion H; reflexivity|].
+  destruct (c =? 43); [discriminate|].
+  destruct (c =? 37).
+  - destruct r as [|u r1]; [inversion H; reflexivity|].
+    destruct ((u =? 117) || (u =? 85)).
+    + match type of H with (match ?X with Some _ => _ | None => _ end) = _ => destruct X as [[b r5]|] end; [discriminate|].
+      destruct (udu_loop tbl f r1) as [o' ch] eqn:E. inversion H; subst. f_equal. f_equal.
+      eapply IH; [exact E|cbn [length] in *; lia].
+    + match type of H with (match ?X with Some _ => _ | None => _ end) = _ => destruct X as [[b r2]|] end; [discriminate|].
+      destruct (udu_loop tbl f (u :: r1)) as [o' ch] eqn:E. inversion H; subst. f_equal.
+      eapply IH; [exact E|cbn [length] in *; lia].
+  - destruct (udu_loop tbl f r) as [o' ch] eqn:E. inversion H; subst. f_equal. eapply IH; [exact E|cbn [length] in *; lia].
+Qed.
+
+(* for EVERY best-fit table *)
+Lemma fs_url_decode_uni tbl : flag_sound (t_url_decode_uni tbl).
+Proof.
+  intros s _ Hne. unfold t_url_decode_uni in *. destruct (has_pct_or_plus s); [|cbn [t_out t_changed t_err ok_res] in *; congruence].
+  destruct (udu_loop tbl (S (length s)) s) as [o ch] eqn:E.
+  cbn [t_out t_changed t_err ok_res] in *. destruct ch; [reflexivity|]. exfalso; apply Hne. eapply udu_unchanged; [exact E|lia].
+Qed.
+
 Theorem all_flags_sound_holds : all_flags_sound.
 Proof.
   intro t; destruct t; cbn [apply_t].
